@@ -372,6 +372,9 @@ func (cp *CollectingProcess) decodeDataSet(dataBuffer *bytes.Buffer, obsDomainID
 			} else {
 				length = int(ie.Len)
 			}
+			if dataBuffer.Len() < length {
+				return nil, fmt.Errorf("data record is truncated: field needs %d bytes, %d left", length, dataBuffer.Len())
+			}
 			element, err := entities.DecodeAndCreateInfoElementWithValue(ie, dataBuffer.Next(length))
 			if err != nil {
 				return nil, err
